@@ -72,6 +72,13 @@ class C08(ProgramProperty):
             return None
         ctx.count('both_accepted')
         d = ref.first_diff(ref.erase(a['ok']), ref.erase(b['ok']))
+        if d and not case.get('py312'):
+            # validity gate of the metamorphic pair: if the reference parser reads the two texts differently as well, the
+            # rewrite was not a pure layout change (a generator slip such as `with (a, b):` vs `with ((a, b)):`)
+            ra, rb = ref.ref_parse(case['base'], case['mode']), ref.ref_parse(case['variant'], case['mode'])
+            if ra[0] == 'ok' and rb[0] == 'ok' and ref.first_diff(ref.erase(ra[1]), ref.erase(rb[1])) is not None:
+                ctx.count('pair_not_equivalent_for_the_reference_(generator)')
+                return None
         if d:
             return Failure('tree_differs:' + norm_path(d[0]), case=_c(case), path=d[0], base=trim(d[1]), variant=trim(d[2]))
         return None
